@@ -226,7 +226,13 @@ func checkC03(sc *Scenario, t *Truth) []Violation {
 	// after Run() returned nothing may be launched without an explicit start
 	if t.RunRet >= 0 {
 		for _, in := range t.Insts {
-			if in.Kind == "simproc" && in.ExecSeq > t.RunRet && !t.explicitStartCovering(in.Replica, t.RunRet, in.ExecSeq) {
+			prevExec := 0
+			for _, o := range t.ByRep[in.Replica] {
+				if o.ExecSeq < in.ExecSeq && o.ExecSeq > prevExec {
+					prevExec = o.ExecSeq
+				}
+			}
+			if in.Kind == "simproc" && in.ExecSeq > t.RunRet && !t.explicitStartCovering(in.Replica, t.RunRet, in.ExecSeq) && !t.startRequestedBetween(in.Replica, prevExec, in.ExecSeq) {
 				vs = append(vs, Violation{"C03", "exec-after-run-returned", "", fmt.Sprintf("command of %s launched at seq %d after Run() returned at seq %d", in.Replica, in.ExecSeq, t.RunRet), in.ExecSeq})
 			}
 		}
